@@ -722,8 +722,11 @@ def check(ctx):
         """one bs_dual request per element of a Greek obtained from float64 inputs"""
         pd_ = fam in ("american_binary", "lookback")
         val = val.detach().reshape(-1)
+        k_all = k_.detach().expand(s_.shape).reshape(-1) if isinstance(k_, torch.Tensor) else None     # a tensor strike: one per element
         for j in range(val.numel()):
             sj, mj, tj, vj = (float(x.detach().reshape(-1)[j]) for x in (s_, m_, t_, v_))
+            if k_all is not None:
+                k_ = float(k_all[j])
             grid_dual.append(({"op": "bs_dual", "fn": fam + "_price", "call": call, "wrt": WRT[greek], "order": 2 if greek == "gamma" else 1,
                                "elems": [enc_flt([sj, tj, vj, k_, mj if pd_ else sj])]},
                               (meta | {"greek": greek, "module": fam, "element": j, "s": sj, "m": mj if pd_ else None, "t": tj, "v": vj, "k": k_},
@@ -928,6 +931,171 @@ def check(ctx):
                 ctx.traces += 1
                 # float32 data: the moneyness / log-moneyness / variance handed over are themselves rounded to single precision
                 judge_state(f"autogreek[user:{spotpar}/{volpar}]", "autogreek[user]", "user", greek, state, st, val, ref, 1e-9 if f64 else 5e-3, 1.0, f64, case)
+    # ---------------- TENSOR-valued strikes (TensorOrScalar is accepted throughout the functional layer and by every module): one strike for
+    # all elements as a 0-dim or (1,) float64 tensor, one strike per element, one per path against paths x steps.  Every family x Greek on
+    # every tier through the module built with that strike (every strike form), the module's forward (delta), the functional form and
+    # autogreek on the module's price.  The Greek has to be the derivative of the module's own / the functional price at the strike of
+    # each element; reference: the harness's reverse-mode derivative of that price on fresh leaves; float64 results also to the model.
+    def tensor_strike(form, F):
+        kv = lambda: g.choice(DYADIC_STRIKES) if g.chance(0.3) else g.r.uniform(0.4, 2.5)
+        shape = {"0-dim": (), "(1,)": (1,), "per-element": tuple(F), "per-path": (F[0], 1)}[form]
+        return torch.tensor([kv() for _ in range(math.prod(shape))], dtype=torch.float64).reshape(shape)
+
+    for _ in range(1 if ctx.tier == "quick" else 6):
+        for fam in FAMS:
+            for greek in ("delta", "gamma", "vega", "theta"):
+                pd = fam in ("american_binary", "lookback")
+                plan = [("module", form) for form in ("0-dim", "(1,)", "per-element", "per-path")]
+                plan += [("functional", g.choice(["0-dim", "(1,)", "per-element", "per-path"])),
+                         ("autogreek", g.choice(["0-dim", "(1,)", "per-element", "per-path"]))]
+                if greek == "delta":
+                    plan.append(("forward", g.choice(["0-dim", "(1,)"])))     # the features of forward carry one more dimension
+                for route, form in plan:
+                    call = g.chance(0.5) if not pd else True
+                    F = (g.choice([2, 3]), g.choice([2, 3])) if form == "per-path" else g.choice([(1,), (2,), (3,), (2, 2)])
+                    K = tensor_strike(form, F)
+                    s_, m_, t_, v_ = (x.reshape(F) for x in tame_point(fam, math.prod(F)))
+                    mod = MODS[fam](strike=K) if pd else MODS[fam](call=call, strike=K)
+                    Kx = K.expand(F)
+                    if route == "functional":
+                        pr = lambda S, t, v: call_bs(torch, fam + "_price", (S / Kx).log(), t, v, Kx, m_, call)
+                    elif pd:
+                        pr = lambda S, t, v: mod.price((S / Kx).log(), m_, t, v)
+                    else:
+                        pr = lambda S, t, v: mod.price((S / Kx).log(), t, v)
+                    ref = harness_greeks(torch, pr, s_.exp() * Kx, t_, v_)[greek]
+                    C = lambda x: x.clone()
+                    args = (C(s_), C(m_), C(t_), C(v_)) if pd else (C(s_), C(t_), C(v_))
+                    if route == "module":
+                        site = f"module:{fam}"
+                        st, val, _ = call_impl(getattr(mod, greek), *args)
+                    elif route == "forward":
+                        site = f"forward:{fam}"
+                        st, val, _ = call_impl(mod, torch.stack(args, dim=-1))
+                        ref = ref.unsqueeze(-1)
+                    elif route == "functional":
+                        site = f"bs_{fam}"
+                        st, val, _ = call_impl(call_bs, torch, f"{fam}_{greek}", C(s_), C(t_), C(v_), K, C(m_), call)
+                    else:
+                        site = f"autogreek[{fam}.price]"
+                        params = {"log_moneyness": C(s_), "time_to_maturity": C(t_), "volatility": C(v_), "strike": K}
+                        if pd:
+                            params["max_log_moneyness"] = C(m_)
+                        st, val, _ = call_impl(getattr(ag, greek), mod.price, **params)
+                    case = {"tensor_strike": form, "route": route, "family": fam, "greek": greek, "call": call, "K": K.tolist(), "shape": list(F),
+                            "s": s_.tolist(), "m": m_.tolist() if pd else None, "t": t_.tolist(), "v": v_.tolist()}
+                    ctx.case(case, True, tag="tensor_strike")
+                    ctx.stats[f"tensor_strike={route}:{fam}:{form}"] += 1
+                    ctx.traces += 1
+                    if st != "ok":
+                        ctx.fail(f"{site}.{greek} raised for a strike given as a tensor ({form})", case, key=f"{site}.{greek}:tensor-strike:error", detail=val)
+                        continue
+                    if tuple(val.shape) != tuple(ref.shape):
+                        bad = (None, list(val.shape), list(ref.shape))
+                    elif val.dtype != torch.float64:
+                        bad = (None, str(val.dtype), "float64")
+                    else:
+                        # both sides double-precision evaluations of the same smooth price on the tame box of the sessions
+                        bad = first_mismatch(val, ref, 1e-10, FLOORS(fam, greek, float(Kx.min())))
+                    if bad:
+                        ctx.fail(f"{site}.{greek} is not the {greek} (derivative) of the price when the strike is given as a tensor ({form})", case,
+                                 key=f"{site}.{greek}:tensor-strike:not-derivative", detail={"element": bad[0], "greek": bad[1], "derivative_of_price": bad[2]})
+                        continue
+                    to_dual({"tensor_strike": form, "route": site}, fam, greek, call, K, s_, m_, t_, v_, val)
+    # ---------------- ENTANGLED inputs: the arguments come out of a differentiable pipeline of the caller - one of them (log-moneyness, time to
+    # maturity or volatility: the root) has requires_grad=True (a leaf, or the result of a tracked computation) and the OTHER arguments were
+    # computed from it (the running maximum as log_moneyness.cummax(-1).values - how it is built from a path - or shifted by a multiple of
+    # root - root.detach(), which leaves the values alone and ties the graphs).  A Greek is a function of the VALUES of its arguments: the
+    # partial derivative of the price with the other arguments held at the values given, whatever graph the caller's tensors hang in.
+    # Every family x Greek x root on every tier through the functional form, the module (forward for delta) and autogreek on the module's
+    # price; reference: the harness's derivative on fresh detached leaves.  pfhedge.autogreek.vega / theta called directly return by
+    # definition the gradient with respect to the caller's own tensor (see the grids), so there the root is never that tensor.
+    for _ in range(1 if ctx.tier == "quick" else 6):
+        for fam in FAMS:
+            for greek in ("delta", "gamma", "vega", "theta"):
+                for root in ("s", "t", "v"):
+                    pd = fam in ("american_binary", "lookback")
+                    call = g.chance(0.5) if not pd else True
+                    k_ = g.choice(DYADIC_STRIKES) if g.chance(0.5) else g.r.uniform(0.4, 2.5)
+                    F = g.choice([(1,), (3,), (4,), (2, 3), (3, 4), (1, 3)])
+                    base = dict(zip("smtv", (x.reshape(F) for x in tame_point(fam, math.prod(F)))))
+                    use_cummax = pd and root == "s" and g.chance(0.6)
+                    if use_cummax:
+                        while True:
+                            base["m"] = base["s"].cummax(-1).values
+                            if fam != "lookback" or not bool((base["m"].abs() < 0.02).any()):
+                                break
+                            base["s"] = base["s"] + 0.05                              # away from the branch kink max = strike
+                    leaf = g.chance(0.5)
+                    R = base[root].clone().requires_grad_()
+                    R = R if leaf else R * 1.0
+                    ten, coef = {root: R}, {}
+                    for nm in "smtv":
+                        if nm == root:
+                            continue
+                        if nm == "m" and use_cummax:
+                            ten["m"] = R.cummax(-1).values
+                            continue
+                        coef[nm] = g.choice([-1.0, 1.0]) * g.r.uniform(0.5, 2.0)
+                        ten[nm] = base[nm] + coef[nm] * (R - R.detach())                    # the value of base[nm], a function of the root
+                    mod = MODS[fam](strike=k_) if pd else MODS[fam](call=call, strike=k_)
+                    M = base["m"]
+                    wrt = {"delta": "s", "gamma": "s", "vega": "v", "theta": "t"}[greek]
+                    routes = ["functional", "module"] + (["autogreek"] if (root != wrt or wrt == "s") else []) + (["forward"] if greek == "delta" else [])
+                    for route in routes:
+                        if route == "functional":
+                            pr = lambda S, t, v: call_bs(torch, fam + "_price", (S / k_).log(), t, v, k_, M, call)
+                        elif pd:
+                            pr = lambda S, t, v: mod.price((S / k_).log(), M, t, v)
+                        else:
+                            pr = lambda S, t, v: mod.price((S / k_).log(), t, v)
+                        ref = harness_greeks(torch, pr, base["s"].exp() * k_, base["t"], base["v"])[greek]
+                        args = (ten["s"], ten["m"], ten["t"], ten["v"]) if pd else (ten["s"], ten["t"], ten["v"])
+                        if route == "module":
+                            site = f"module:{fam}"
+                            st, val, _ = call_impl(getattr(mod, greek), *args)
+                        elif route == "forward":
+                            site = f"forward:{fam}"
+                            st, val, _ = call_impl(mod, torch.stack(args, dim=-1))
+                            ref = ref.unsqueeze(-1)
+                        elif route == "functional":
+                            site = f"bs_{fam}"
+                            st, val, _ = call_impl(call_bs, torch, f"{fam}_{greek}", ten["s"], ten["t"], ten["v"], k_, ten["m"], call)
+                        else:
+                            site = f"autogreek[{fam}.price]"
+                            params = {"log_moneyness": ten["s"], "time_to_maturity": ten["t"], "volatility": ten["v"], "strike": k_}
+                            if pd:
+                                params["max_log_moneyness"] = ten["m"]
+                            st, val, _ = call_impl(getattr(ag, greek), mod.price, **params)
+                        case = {"entangled_inputs": route, "family": fam, "greek": greek, "call": call, "k": k_, "shape": list(F),
+                                "root": {"s": "log_moneyness", "t": "time_to_maturity", "v": "volatility"}[root] + (" (leaf" if leaf else " (non-leaf")
+                                + ", requires_grad=True)",
+                                "others": {nm: ("root.cummax(-1).values" if (nm == "m" and use_cummax) else f"value + {coef[nm]:.4g} * (root - root.detach())")
+                                           for nm in ("smtv" if pd else "stv") if nm != root},
+                                "s": base["s"].tolist(), "m": M.tolist() if pd else None, "t": base["t"].tolist(), "v": base["v"].tolist()}
+                        ctx.case(case, True, tag="entangled_inputs")
+                        ctx.stats[f"entangled_inputs={route}:{fam}:root={root}{'/cummax' if use_cummax else ''}"] += 1
+                        ctx.traces += 1
+                        if st != "ok":
+                            ctx.fail(f"{site}.{greek} raised when its arguments are tracked by autograd and computed from one another", case,
+                                     key=f"{site}.{greek}:entangled-inputs:error", detail=val)
+                            continue
+                        if tuple(val.shape) != tuple(ref.shape):
+                            bad = (None, list(val.shape), list(ref.shape))
+                        else:
+                            # both sides double-precision evaluations of the same smooth price on the tame box of the sessions
+                            bad = first_mismatch(val, ref, 1e-10, FLOORS(fam, greek, k_))
+                        if bad:
+                            key = f"{site}.{greek}:entangled-inputs:not-derivative"
+                            if route == "module" and root == wrt and wrt in "tv":
+                                # the autograd-based module vega / theta differentiate by the caller's own volatility / time tensor: one input class
+                                key = "module.vega/theta:entangled-inputs:other-arguments-computed-from-the-differentiated-tensor"
+                            ctx.fail(f"{site}.{greek} is not the partial derivative of the price at the given arguments when the caller's tensors require "
+                                     "grad and were computed from one another (the Greek follows the caller's graph into the other arguments)", case,
+                                     key=key,
+                                     detail={"element": bad[0], "greek": bad[1], "derivative_of_price": bad[2]})
+                            continue
+                        to_dual({"entangled_inputs": root, "route": site}, fam, greek, call, k_, base["s"], M, base["t"], base["v"], val)
     for req_, meta_ in grid_dual:
         dual_reqs.append(req_)
         dual_meta.append(meta_)
